@@ -914,9 +914,11 @@ class FileStorage(
         with self._lock:
             pos = self._lookup_pos(oid)
             h = self._read_data_header(pos, oid)
-            if h.plen == 0 and h.back == 0:
-                # Undone creation
-                raise POSKeyError(oid)
+            if h.plen == 0:
+                # A back pointer.  If it leads (possibly via other back
+                # pointers) to an undone creation, the object does not
+                # exist: _loadBack_impl raises POSKeyError, like load().
+                self._loadBack_impl(oid, h.back)
             return h.tid
 
     def _transactionalUndoRecord(self, oid, pos, tid, pre):
